@@ -469,6 +469,17 @@ func vfC15Replay(cfg *vfC15Cfg, path []vfC15Op) *vfC15Ctx {
 func (c *vfC15Ctx) checkState(opClass string) (fails []vfC15Fail) {
 	h := c.h
 	fail := func(key string, d map[string]any) { fails = append(fails, vfC15Fail{key, d}) }
+	// the bytes GetObject hands out are the caller's: writing into them, or appending to them,
+	// must not reach the heap (every object is fetched, scribbled over and extended first; the
+	// comparisons below then see what the heap still holds)
+	for _, ob := range c.live {
+		if got, err := h.GetObject(ob.id); err == nil {
+			for j := range got {
+				got[j] ^= 0xA5
+			}
+			_ = append(got, 0xEE, 0xEE, 0xEE, 0xEE, 0xEE, 0xEE, 0xEE, 0xEE)
+		}
+	}
 	pre := c.canon()
 	var sum uint64
 	type rng struct{ a, b uint64 }
